@@ -676,6 +676,11 @@ class LibMap:
                     skip(args[0])["referencedDecl"].get("name") == "nullopt":
                 return "((%s){0})" % ct
             return "((%s){1, %s})" % (ct, em.E(args[0]))
+        if ct == "struct vf_lock":
+            if len(args) == 1 and self.mapped(em, args[0]) == ct:
+                return em.E(args[0])
+            em.dropped.append("lock")
+            return "((struct vf_lock){%d})" % (1 if args else 0)
         if ct == "struct vf_fn":
             if not args:
                 return "((struct vf_fn){0})"
